@@ -303,8 +303,18 @@ def train_test(ck, prog):
     inst = "train_test_split: test = indices[0..n_test], train = indices[n_test..n] of one permutation of 0..n"
     vec, s1, e1_ = P["xtr"]
     vec2, s2, e2 = P["xte"]
-    coll = vec[0] == "call" and vec[1].endswith("Iterator::collect") and vec[2][0][0] == "agg" and vec[2][0][1].endswith("Range::Range")
     problems = []
+    # in-place permutations of the index vector keep it a permutation of 0..n
+    PERM = ("::deref_mut", "SliceRandom::shuffle", "::reverse", "::sort", "::sort_unstable", "::swap", "::as_mut_slice")
+    if vec == vec2 and vec[0] == "phi":
+        base = [a for a in vec[2] if not (a[0] == "call" and a[1].startswith("mut:"))]
+        muts = [a[1] for a in vec[2] if a[0] == "call" and a[1].startswith("mut:")]
+        other = [m for m in muts if not m.endswith(PERM)]
+        if other:
+            problems.append(f"index vector is modified by {other}")
+        if len(base) == 1:
+            vec = vec2 = base[0]
+    coll = vec[0] == "call" and vec[1].endswith("Iterator::collect") and vec[2][0][0] == "agg" and vec[2][0][1].endswith("Range::Range")
     if vec != vec2:
         problems.append("train and test index different vectors")
     if not coll:
